@@ -107,9 +107,15 @@ type ctRules struct{ in, out []int }
 
 type ctTimeouts struct{ tcp, udp, def int64 }
 
-func ctYAML(r ctRules, t ctTimeouts) string {
+// dlca: firewall.default_local_cidr_any - not part of the rule lists (nor of Firewall.GetRuleHash), but it decides what a
+// rule without local_cidr matches on a node whose certificate has unsafe networks
+func ctYAML(r ctRules, t ctTimeouts, dlca bool) string {
 	var sb strings.Builder
-	sb.WriteString("firewall:\n  conntrack:\n")
+	sb.WriteString("firewall:\n")
+	if dlca {
+		sb.WriteString("  default_local_cidr_any: true\n")
+	}
+	sb.WriteString("  conntrack:\n")
 	fmt.Fprintf(&sb, "    tcp_timeout: %dns\n    udp_timeout: %dns\n    default_timeout: %dns\n", t.tcp, t.udp, t.def)
 	for i, l := range [][]int{r.in, r.out} {
 		name := []string{"inbound", "outbound"}[i]
@@ -221,8 +227,9 @@ type ctEv struct {
 	incoming bool
 	flow     ctFlow
 	d        int64
-	rules    int // reload: index into hist.rulesets
-	unsafe   int // reload: unsafe-network variant of our certificate
+	rules    int  // reload: index into hist.rulesets
+	unsafe   int  // reload: unsafe-network variant of our certificate
+	dlca     bool // reload: firewall.default_local_cidr_any
 	to       ctTimeouts
 }
 
@@ -231,6 +238,7 @@ type ctHist struct {
 	rulesets []ctRules
 	rules0   int
 	unsafe0  int
+	dlca0    bool
 	to0      ctTimeouts
 	v0       uint16
 	cacheP   int64 // > 0: every Drop gets the cache of a real firewall.ConntrackCacheTicker of this period; 0: nil cache
@@ -269,7 +277,7 @@ func ctPrefixes(ss []string) []netip.Prefix {
 }
 
 func ctRunHistIn(c *hx.Ctx, h *ctHist) (res ctResult) {
-	w, err := nebula.VerifCTNew(ctRnd(c), c.Chance(0.5), ctMyNets, ctUnsafe[h.unsafe0], ctYAML(h.rulesets[h.rules0], h.to0))
+	w, err := nebula.VerifCTNew(ctRnd(c), c.Chance(0.5), ctMyNets, ctUnsafe[h.unsafe0], ctYAML(h.rulesets[h.rules0], h.to0, h.dlca0))
 	if err != nil {
 		res.fail = "VerifCTNew: " + err.Error()
 		return
@@ -292,10 +300,12 @@ func ctRunHistIn(c *hx.Ctx, h *ctHist) (res ctResult) {
 
 	// a rule set is identified by the text of its rules and the unsafe networks of our certificate
 	type rsKey struct {
-		rules  string
+		rules  string // rule lists + default_local_cidr_any
 		unsafe int
 	}
-	mkKey := func(rules, unsafe int) rsKey { return rsKey{ctYAML(h.rulesets[rules], ctTimeouts{}), unsafe} }
+	mkKey := func(rules, unsafe int, dlca bool) rsKey {
+		return rsKey{ctYAML(h.rulesets[rules], ctTimeouts{}, dlca), unsafe}
+	}
 	rsIDs := map[rsKey]int{}
 	rsID := func(k rsKey) int {
 		if id, ok := rsIDs[k]; ok {
@@ -304,7 +314,7 @@ func ctRunHistIn(c *hx.Ctx, h *ctHist) (res ctResult) {
 		rsIDs[k] = len(rsIDs)
 		return len(rsIDs) - 1
 	}
-	cur := mkKey(h.rules0, h.unsafe0)
+	cur := mkKey(h.rules0, h.unsafe0, h.dlca0)
 	curTo := h.to0
 	rs0 := rsID(cur)
 
@@ -368,9 +378,9 @@ func ctRunHistIn(c *hx.Ctx, h *ctHist) (res ctResult) {
 			evLits = append(evLits, hx.App("CS", hx.Z(e.d)))
 			descEv = append(descEv, []any{"sleep", e.d})
 		case 2:
-			nk := mkKey(e.rules, e.unsafe)
+			nk := mkKey(e.rules, e.unsafe, e.dlca)
 			changed := nk != cur || e.to != curTo
-			inst, rerr := w.Reload(ctYAML(h.rulesets[e.rules], e.to), e.unsafe != cur.unsafe, ctUnsafe[e.unsafe])
+			inst, rerr := w.Reload(ctYAML(h.rulesets[e.rules], e.to, e.dlca), e.unsafe != cur.unsafe, ctUnsafe[e.unsafe])
 			if rerr != nil {
 				res.fail = "reload: " + rerr.Error()
 				return
@@ -381,7 +391,7 @@ func ctRunHistIn(c *hx.Ctx, h *ctHist) (res ctResult) {
 			if changed {
 				cur, curTo = nk, e.to
 				evLits = append(evLits, hx.App("CR", hx.N(uint64(rsID(cur))), hx.Z(e.to.tcp), hx.Z(e.to.udp), hx.Z(e.to.def), hx.Bool(inst)))
-				descEv = append(descEv, []any{"reload", rsID(cur), e.rules, e.unsafe, e.to.tcp, e.to.udp, e.to.def, inst, w.RulesVersion()})
+				descEv = append(descEv, []any{"reload", rsID(cur), e.rules, e.unsafe, e.dlca, e.to.tcp, e.to.udp, e.to.def, inst, w.RulesVersion()})
 			} else {
 				evLits = append(evLits, hx.App("CN", hx.Bool(inst)))
 				descEv = append(descEv, []any{"reload-unchanged", inst})
@@ -400,7 +410,7 @@ func ctRunHistIn(c *hx.Ctx, h *ctHist) (res ctResult) {
 	res.lit = hx.App(ctor[0], append(ctor[1:], hx.N(uint64(rs0)), hx.N(uint64(h.v0)), hx.Z(h.to0.tcp), hx.Z(h.to0.udp), hx.Z(h.to0.def),
 		hx.List(rowLits), hx.List(evLits), hx.NList(obs))...)
 	res.desc = map[string]any{"kind": h.kind, "cache_period": h.cacheP, "v0": h.v0, "timeouts": []int64{h.to0.tcp, h.to0.udp, h.to0.def},
-		"rulesets": fmt.Sprint(h.rulesets), "rules0": h.rules0, "unsafe0": h.unsafe0, "events": descEv, "tracked_at_end": w.Tracked()}
+		"rulesets": fmt.Sprint(h.rulesets), "rules0": h.rules0, "unsafe0": h.unsafe0, "dlca0": h.dlca0, "events": descEv, "tracked_at_end": w.Tracked()}
 	res.nontriv = res.honoured > 0 && (res.expired > 0 || res.installed > 0)
 	return
 }
@@ -534,6 +544,8 @@ func ctRandHist(c *hx.Ctx, reloads bool) *ctHist {
 	if cached {
 		h.cacheP = ctSec
 	}
+	h.dlca0 = c.Chance(0.4)
+	curDlca := h.dlca0
 	nr := 1
 	if reloads {
 		nr = 2 + c.Intn(3)
@@ -583,6 +595,16 @@ func ctRandHist(c *hx.Ctx, reloads bool) *ctHist {
 		}
 		flows[1] = g
 	}
+	if reloads && c.Chance(0.6) { // a flow to an address inside an unsafe network of ours, and our certificate has it
+		if h.unsafe0 == 0 {
+			h.unsafe0 = 1 + c.Intn(2)
+		}
+		u := flows[len(flows)-1]
+		if u.remote.Is4() {
+			u.local = netip.MustParseAddr("192.168.0.5")
+			flows[len(flows)-1] = u
+		}
+	}
 	curTo := h.to0
 	churnPort := uint16(20000)
 	if cached {
@@ -618,9 +640,18 @@ func ctRandHist(c *hx.Ctx, reloads bool) *ctHist {
 			}
 			h.evs = append(h.evs, ctEv{kind: 0, flow: f, peer: f.peer, incoming: c.Chance(0.7)})
 		default:
-			e := ctEv{kind: 2, rules: c.Intn(len(h.rulesets)), unsafe: h.unsafe0, to: curTo}
+			e := ctEv{kind: 2, rules: c.Intn(len(h.rulesets)), unsafe: h.unsafe0, dlca: curDlca, to: curTo}
 			if c.Chance(0.3) {
 				e.unsafe = c.Intn(3)
+			}
+			if c.Chance(0.35) { // a reload that changes only an input of rule matching outside the rule lists
+				last := ctLastCfg(h)
+				e.rules, e.unsafe = last.rules, last.unsafe
+				if c.Chance(0.75) {
+					e.dlca = !curDlca
+				} else {
+					e.unsafe = (last.unsafe + 1 + c.Intn(2)) % 3
+				}
 			}
 			if c.Chance(0.3) {
 				e.to = ctRandTimeouts(c, cached)
@@ -630,7 +661,7 @@ func ctRandHist(c *hx.Ctx, reloads bool) *ctHist {
 					e = ctLastCfg(h)
 				}
 			}
-			curTo = e.to
+			curTo, curDlca = e.to, e.dlca
 			h.evs = append(h.evs, e)
 		}
 	}
@@ -639,7 +670,7 @@ func ctRandHist(c *hx.Ctx, reloads bool) *ctHist {
 
 // the configuration in force at the end of h, as a reload event (reloading it changes nothing)
 func ctLastCfg(h *ctHist) ctEv {
-	e := ctEv{kind: 2, rules: h.rules0, unsafe: h.unsafe0, to: h.to0}
+	e := ctEv{kind: 2, rules: h.rules0, unsafe: h.unsafe0, dlca: h.dlca0, to: h.to0}
 	for _, x := range h.evs {
 		if x.kind == 2 {
 			e = x
@@ -793,6 +824,32 @@ func ctSweepReload() []*ctHist {
 	// F25 first: rulesVersion 65535, a reload that changes nothing about the rules (timeouts only), the reply is refused
 	hs = append(hs, &ctHist{kind: "reload-version-wrap", rulesets: rulesets, to0: to, v0: 65535,
 		evs: []ctEv{pkt(f, true), pkt(f, false), rl(0, 0, to2), pkt(f, false)}})
+	// reloads that change ONLY firewall.default_local_cidr_any (rule lists byte-identical, same rule hash): node with an
+	// unsafe network, inbound rule without local_cidr, a tracked flow to an unsafe-network local address (u) and one to
+	// our own address (f); true -> false refuses new u flows, so the tracked u must be cut and f kept; false -> true
+	for _, v0 := range []uint16{0, 9, 65533} {
+		for _, from := range []bool{true, false} {
+			for _, un := range []int{1, 2} {
+				h := &ctHist{kind: fmt.Sprintf("sweep/dlca-only/%v/u%d/v%d", from, un, v0), rulesets: rulesets, to0: to, v0: v0, unsafe0: un, dlca0: from}
+				flip := func(d bool) ctEv { return ctEv{kind: 2, rules: 0, unsafe: un, dlca: d, to: to} }
+				h.evs = append(h.evs, pkt(u, true), pkt(u, false), pkt(f, true), pkt(f, false),
+					flip(!from), pkt(u, false), pkt(u, false), pkt(f, false), pkt(u, true), pkt(u, false),
+					flip(from), pkt(u, false), pkt(u, true), pkt(u, false), pkt(f, false),
+					flip(!from), pkt(u, false), ctEv{kind: 1, d: ctMin}, pkt(u, false), pkt(f, false))
+				hs = append(hs, h)
+			}
+		}
+	}
+	// the unsafe networks of our certificate change and nothing else (a certificate reload): 1 <-> 2, flows to both networks
+	for _, v0 := range []uint16{0, 65533} {
+		u9 := u
+		u9.local = netip.MustParseAddr("192.168.9.7")
+		h := &ctHist{kind: fmt.Sprintf("sweep/unsafe-only/v%d", v0), rulesets: rulesets, to0: to, v0: v0, unsafe0: 2, dlca0: true}
+		rlu := func(un int) ctEv { return ctEv{kind: 2, rules: 0, unsafe: un, dlca: true, to: to} }
+		h.evs = append(h.evs, pkt(u, true), pkt(u, false), pkt(u9, true), pkt(u9, false), rlu(1), pkt(u, false), pkt(u9, false), pkt(u9, true),
+			rlu(2), pkt(u9, false), pkt(u, false), rlu(0), pkt(u, false), pkt(f, true), pkt(f, false), rlu(1), pkt(u, false), pkt(f, false))
+		hs = append(hs, h)
+	}
 	names := []string{"revert", "cut", "cut-then-ask", "same-words", "timeouts-only", "unchanged", "other-dir", "unsafe-on", "unsafe-on-off"}
 	for _, v0 := range []uint16{0, 7, 65533, 65534, 65535} {
 		for _, name := range names {
